@@ -22,16 +22,17 @@ import (
 )
 
 type oracle struct {
-	c       *Checker
-	src     *Source
-	it      string
-	k       *composer // helper for stream lookups (uses the current path state)
-	assumed map[string]bool
+	c        *Checker
+	src      *Source
+	it       string
+	k        *composer // helper for stream lookups (uses the current path state)
+	assumed  map[string]bool
+	problems []string
 }
 
 func (o *oracle) helper(st *pathint.State) *composer {
 	return &composer{c: o.c, src: o.src, st: st, it: o.it, atoms: map[bitdom.Atom]bitdom.Form{}, linMap: map[string]lin.Form{},
-		blobs: map[string]string{}, po: &pathint.Outcome{}, assumed: o.assumed, cache: map[string]cached{}}
+		blobs: map[string]string{}, po: &pathint.Outcome{}, assumed: o.assumed, cache: map[string]cached{}, noFitFacts: true}
 }
 
 // Byte implements pathint.FetchOracle.
@@ -52,10 +53,11 @@ func (o *oracle) Byte(st *pathint.State, it *pathint.Obj, off lin.Form, sym stri
 			return pathint.Val{K: pathint.KInt, F: lin.Sym(name), Bits: o.c.IP.SymVec(name, 8)}, true
 		}
 		if o.src.TotalOK && st.ProveSimplified(pos.Sub(o.src.Total)) {
-			name := "after:" + sym
-			o.c.IP.SetBounds(name, 0, 255)
-			return pathint.Val{K: pathint.KInt, F: lin.Sym(name), Bits: o.c.IP.SymVec(name, 8)}, true
+			o.problems = append(o.problems, fmt.Sprintf("the parser reads byte %s, beyond the %s bits that were written [path: %s]", off, o.src.Total, clip(st.PathDesc(), 200)))
+		} else {
+			o.problems = append(o.problems, fmt.Sprintf("the parser reads byte %s: no emitted field starts there [path: %s]", off, clip(st.PathDesc(), 200)))
 		}
+		st.Abort()
 		return pathint.Val{}, false
 	}
 	vec = k.applyPreds(vec)
@@ -121,9 +123,9 @@ func (c *Checker) Guided(src *Source, parser *ssa.Function, it string, root stri
 	res.Problems = append(res.Problems, src.Problems...)
 	ip := c.IP
 	o := &oracle{c: c, src: src, it: it, assumed: map[string]bool{}}
-	savedO, savedL, savedI := ip.Oracle, ip.LinOfBits, ip.InlineCalls
-	ip.Oracle, ip.LinOfBits, ip.InlineCalls = o, o.linOfBits, true
-	defer func() { ip.Oracle, ip.LinOfBits, ip.InlineCalls = savedO, savedL, savedI }()
+	savedO, savedL, savedI, savedP := ip.Oracle, ip.LinOfBits, ip.InlineCalls, ip.MaxPaths
+	ip.Oracle, ip.LinOfBits, ip.InlineCalls, ip.MaxPaths = o, o.linOfBits, true, 5000
+	defer func() { ip.Oracle, ip.LinOfBits, ip.InlineCalls, ip.MaxPaths = savedO, savedL, savedI, savedP }()
 	var rt types.Type
 	if r := parser.Signature.Results(); r.Len() > 0 {
 		rt = r.At(0).Type()
@@ -137,7 +139,7 @@ func (c *Checker) Guided(src *Source, parser *ssa.Function, it string, root stri
 		for k, v := range src.St.Preds {
 			st.Preds[k] = v
 		}
-		st.SetMem(it+".#cur", pathint.IntVal(lin.Const(0)))
+		st.SetMem(it+".#cur", pathint.IntVal(lin.Const(opts.Start)))
 		st.SetMem(it+".#len", pathint.IntVal(lin.Sym(ln)))
 		if src.TotalOK {
 			if div8(src.Total) {
@@ -189,6 +191,7 @@ func (c *Checker) Guided(src *Source, parser *ssa.Function, it string, root stri
 			res.ConsumedBad = append(res.ConsumedBad, "the parser's final cursor is unknown"+cond)
 		}
 	})
+	res.Problems = append(res.Problems, o.problems...)
 	if sum.Truncated {
 		res.Problems = append(res.Problems, "path budget exceeded while interpreting the parser on this stream")
 	}
